@@ -190,27 +190,20 @@ Proof.
       pose proof (normalized_lower_bound _ Hl Hn Hne). lia.
 Qed.
 
-Lemma small_mul_pres v y v' :
-  vgood v -> 0 < y < B64 -> small_mul c v y = Some v' -> vgood v'.
-Proof.
-  intros (H1 & H2 & H3 & H4 & H5) Hy E.
-  apply small_mul_spec in E; [|assumption|lia].
-  destruct E as (V & O & Len & C & _ & G & I).
-  pose proof (lval_nonneg _ H1) as Hnn.
-  split; [exact O|]. split.
-  - apply (norm_from_len (vl v) (vl v') (lval (vl v) * y)); try assumption; try nia.
-    intros El. left. rewrite El. reflexivity.
-  - split; [apply I; exact H3|]. split; [lia|]. intros Ha. rewrite (C Ha). apply H5, Ha.
-Qed.
-
 Lemma small_mul_good v y :
   vgood v -> 0 < y < B64 -> lval (vl v) * y < B64 ^ BIGINT_LIMBS L ->
   exists v', small_mul c v y = Some v' /\ lval (vl v') = lval (vl v) * y /\ vgood v'.
 Proof.
-  intros G Hy Hb. pose proof G as (H1 & H2 & H3 & H4 & H5).
+  intros (H1 & H2 & H3 & H4 & H5) Hy Hb.
   destruct (small_mul c v y) as [v'|] eqn:E.
-  - exists v'. split; [reflexivity|]. split; [|eapply small_mul_pres; eassumption].
-    apply small_mul_spec in E; [|assumption|lia]. tauto.
+  - exists v'. split; [reflexivity|].
+    apply small_mul_spec in E; [|assumption|lia].
+    destruct E as (V & O & Len & C & _ & G & I). split; [exact V|].
+    pose proof (lval_nonneg _ H1) as Hnn.
+    split; [exact O|]. split.
+    + apply (norm_from_len (vl v) (vl v') (lval (vl v) * y)); try assumption; try nia.
+      intros El. left. rewrite El. reflexivity.
+    + split; [apply I; exact H3|]. split; [lia|]. intros Ha. rewrite (C Ha). apply H5, Ha.
   - exfalso. apply small_mul_None in E; [|assumption|lia].
     destruct E as (Ha & E1 & E2). specialize (H5 Ha).
     pose proof (zlen_nonneg (vl v)).
@@ -634,129 +627,3 @@ Proof.
 Qed.
 
 End PM.
-
-(** *** the closed form in the two cases of the task *)
-Lemma pm_out_short maxd s : zlen s <= maxd -> pm_out maxd [] s = (digits_to_Z s, zlen s).
-Proof.
-  intros H. unfold pm_out. cbv zeta. change (zlen (@nil Z)) with 0. rewrite Z.sub_0_r. cbn [app].
-  rewrite firstn_all2 by (unfold zlen in H; lia). rewrite skipn_all2 by (unfold zlen in H; lia).
-  cbn [forallb]. f_equal; lia.
-Qed.
-
-Lemma pm_out_long maxd s :
-  0 <= maxd < zlen s ->
-  pm_out maxd [] s =
-  if all0 (skipn (Z.to_nat maxd) s) then (digits_to_Z (firstn (Z.to_nat maxd) s), maxd)
-  else (digits_to_Z (firstn (Z.to_nat maxd) s) * 10 + 1, maxd + 1).
-Proof.
-  intros H. unfold pm_out. cbv zeta. change (zlen (@nil Z)) with 0. rewrite Z.sub_0_r. cbn [app].
-  fold (all0 (skipn (Z.to_nat maxd) s)). rewrite ParseFacts.zlen_firstn.
-  destruct (all0 _); f_equal; lia.
-Qed.
-
-Lemma pm_out_pos maxd s :
-  0 < maxd -> forallb digitb s = true -> s <> [] -> (forall ch r, s = ch :: r -> ch <> 48) ->
-  0 < fst (pm_out maxd [] s).
-Proof.
-  intros Hm Hd Hne Hlead. destruct s as [|ch r]; [congruence|]. specialize (Hlead ch r eq_refl).
-  unfold pm_out. cbv zeta. change (zlen (@nil Z)) with 0. rewrite Z.sub_0_r. cbn [app].
-  replace (Z.to_nat maxd) with (S (Z.to_nat (maxd - 1))) by lia. cbn [firstn skipn].
-  set (k := Z.to_nat (maxd - 1)).
-  assert (Hd' : forallb digitb (ch :: firstn k r) = true).
-  { cbn [forallb] in *. apply andb_prop in Hd. destruct Hd as [H1 H2]. rewrite H1. cbn [andb].
-    rewrite <- (firstn_skipn k r) in H2. apply forallb_app_l in H2. exact H2. }
-  pose proof (digits_lower ch (firstn k r) Hd' Hlead) as Hlow.
-  pose proof (p10_pos (zlen (firstn k r)) (zlen_nonneg _)).
-  destruct (forallb (fun d => d =? 48) _); cbn [fst]; lia.
-Qed.
-
-Theorem parse_mantissa_spec c T L b maxd i fr :
-  pm_tables_ok c T = true -> 10 ^ (maxd + 1) <= B64 ^ BIGINT_LIMBS L -> 0 < maxd ->
-  forallb digitb i = true -> forallb digitb fr = true ->
-  (forall ch r, i = ch :: r -> ch <> 48) ->
-  let s := strip0 (i ++ fr) in
-  let D := zlen s in
-  let k := Z.to_nat maxd in
-  exists v cnt, parse_mantissa c T L b i fr maxd = Ok (v, cnt) /\
-    vgood c L v /\
-    (D <= maxd -> lval (vl v) = digits_to_Z s /\ cnt = D) /\
-    (maxd < D ->
-       if all0 (skipn k s) then lval (vl v) = digits_to_Z (firstn k s) /\ cnt = maxd
-       else lval (vl v) = digits_to_Z (firstn k s) * 10 + 1 /\ cnt = maxd + 1) /\
-    (s <> [] -> 0 < lval (vl v)) /\
-    0 <= lval (vl v) < 10 ^ (maxd + 1) /\ 0 <= cnt <= maxd + 1.
-Proof.
-  intros HT Hcap Hm Hi Hfr Hlead s D k.
-  destruct (parse_mantissa_closed c T L b maxd HT Hcap Hm i fr Hi Hfr Hlead) as (v & cnt & E & V & G).
-  fold s in V. exists v, cnt. split; [exact E|]. split; [exact G|].
-  assert (Hsd : forallb digitb s = true).
-  { apply strip0_digits. rewrite forallb_app, Hi, Hfr. reflexivity. }
-  assert (Hshead : forall ch r, s = ch :: r -> ch <> 48) by (intros ch r; apply strip0_head).
-  assert (C1 : D <= maxd -> lval (vl v) = digits_to_Z s /\ cnt = D).
-  { intros H. rewrite pm_out_short in V by exact H. injection V as -> ->. auto. }
-  assert (C2 : maxd < D ->
-       if all0 (skipn k s) then lval (vl v) = digits_to_Z (firstn k s) /\ cnt = maxd
-       else lval (vl v) = digits_to_Z (firstn k s) * 10 + 1 /\ cnt = maxd + 1).
-  { intros H. rewrite pm_out_long in V by (fold D; lia). fold k in V.
-    destruct (all0 (skipn k s)); injection V as -> ->; auto. }
-  split; [exact C1|]. split; [exact C2|]. split.
-  - intros Hne. pose proof (pm_out_pos maxd s Hm Hsd Hne Hshead) as P. rewrite <- V in P. exact P.
-  - pose proof (zlen_nonneg s) as HD0. fold D in HD0.
-    pose proof (digits_bound s Hsd) as Hb. fold D in Hb.
-    rewrite p10_add by lia. change (10 ^ 1) with 10.
-    destruct (Z_le_gt_dec D maxd) as [Hle|Hgt].
-    + destruct (C1 Hle) as [-> ->]. pose proof (p10_le D maxd ltac:(lia)).
-      pose proof (p10_pos maxd ltac:(lia)). lia.
-    + specialize (C2 ltac:(lia)).
-      assert (Hfd : forallb digitb (firstn k s) = true).
-      { rewrite <- (firstn_skipn k s) in Hsd. apply forallb_app_l in Hsd. exact Hsd. }
-      pose proof (digits_bound _ Hfd) as Hfb. rewrite ParseFacts.zlen_firstn in Hfb.
-      fold D in Hfb. replace (Z.min (Z.of_nat k) D) with maxd in Hfb by lia.
-      destruct (all0 (skipn k s)); destruct C2 as [-> ->]; lia.
-Qed.
-
-(** ** Examples *)
-Definition digs (n : nat) (d : Z) : list Z := repeat d n.
-
-(** 800 digits, f64 (max 769 + 1): a non-zero digit at position 800 *)
-Example parse_mantissa_800 :
-  let i := digs 799 49 ++ [50] in
-  match parse_mantissa CFG_s TABLES LIMITS checked_build i [] (MAX_DIGITS F64) with
-  | Ok (v, cnt) => lval (vl v) = digits_to_Z (digs 769 49) * 10 + 1 /\ cnt = 770 /\
-                   is_normalized (vl v) = true
-  | _ => False
-  end.
-Proof. vm_compute. repeat split; reflexivity. Qed.
-
-(** the same digits with only zeros after position 769: not rounded up *)
-Example parse_mantissa_800_zeros :
-  let i := digs 769 49 ++ digs 31 48 in
-  match parse_mantissa CFG_sa TABLES LIMITS release_build i [48; 48] (MAX_DIGITS F64) with
-  | Ok (v, cnt) => lval (vl v) = digits_to_Z (digs 769 49) /\ cnt = 769
-  | _ => False
-  end.
-Proof. vm_compute. repeat split; reflexivity. Qed.
-
-(** "0.000123": the leading fraction zeros are skipped and not counted *)
-Example parse_mantissa_frac :
-  match parse_mantissa CFG_nc TABLES LIMITS checked_build [] [48; 48; 48; 49; 50; 51] (MAX_DIGITS F64) with
-  | Ok (v, cnt) => lval (vl v) = 123 /\ cnt = 3
-  | _ => False
-  end.
-Proof. vm_compute. repeat split; reflexivity. Qed.
-
-(** the hypotheses of [parse_mantissa_spec] hold for the generated constants *)
-Example parse_mantissa_spec_inst c b :
-  exists v cnt, parse_mantissa c TABLES LIMITS b [49; 50] [53] (MAX_DIGITS F64) = Ok (v, cnt) /\
-    lval (vl v) = 125 /\ cnt = 3.
-Proof.
-  destruct (parse_mantissa_spec c TABLES LIMITS b (MAX_DIGITS F64) [49; 50] [53]
-              (pm_tables_ok_TABLES c)) as (v & cnt & E & _ & C1 & _); try reflexivity.
-  - vm_compute. discriminate.
-  - intros ch r H. injection H as <- _. discriminate.
-  - exists v, cnt. split; [exact E|]. apply C1. vm_compute. discriminate.
-Qed.
-
-Print Assumptions scientific_exponent_spec.
-Print Assumptions parse_mantissa_closed.
-Print Assumptions parse_mantissa_spec.
